@@ -3,7 +3,7 @@ from fractions import Fraction
 import numpy as np
 from ..runner import Acc, HarnessError
 from ..refmodel import Fmt, add_fmt, mul_fmt, quantize_code
-from ..common import Fxp, fx, codes, flags, fmt_of, reset_class_state, obs, build, AGED
+from ..common import Fxp, fx, codes, flags, fmt_of, reset_class_state, obs, build, AGED, ENVS
 
 ID = 'C07'
 RULE = ('cases = (format pair, operator, call route, code pair) executed with broadcasting (column x row of codes) and as scalars; the result '
@@ -113,7 +113,7 @@ def judge_pair(acc, fxm, fym, xs, ys, op, route, shape_mode, part, by='raw', pre
         acc.violation('format', case, '%s %s %s route=%s: result format %s, growth rule says %s' % (fxm.dtype, op, fym.dtype, route, gz.dtype, fz.dtype),
                       {'part': part, 'op': op, 'route': route})
         return
-    exp, eo, eu, ei = [], False, False, False
+    exp, eo, eu, ei = [], False, False, by == 'env:flagged'          # flagged operands: only their inaccuracy travels to the result
     for a, b in pairs:
         if op == '*':
             r = a * b
@@ -320,6 +320,11 @@ def run_shard(sh):
                     hows = AGED if max(fxm.n_word, fym.n_word) <= 2 else (AGED[(sh['i'] + fs.index(fym) + OPS.index(op)) % len(AGED)],)
                     for how in hows:
                         judge_pair(acc, fxm, fym, xs, ys, op, ROUTES[(fs.index(fym) + OPS.index(op)) % 3], 'outer', 'a', how)
+                if not big:
+                    # a second public feature in force (common.ENVS): configuration options, class template, subclass, flagged operands
+                    envs = ENVS if max(fxm.n_word, fym.n_word) <= 2 else (ENVS[(sh['i'] + fs.index(fym) + OPS.index(op)) % len(ENVS)],)
+                    for env in envs:
+                        judge_pair(acc, fxm, fym, xs, ys, op, ROUTES[(fs.index(fym) + OPS.index(op) + 1) % 3], 'outer', 'a', 'env:' + env)
                 if fxm == fym:
                     judge_pair(acc, fxm, fym, xs, xs, op, 'operator', 'self', 'a')
                     judge_pair(acc, fxm, fym, xs, xs, op, 'function', 'self', 'a', 'value')
